@@ -79,4 +79,42 @@ def run(tier):
     if tier == "thorough":
         from vlib import cov
         cov.report(ck, "C18", srcs)
+        level_r(ck, g, 240)
     return ck.finish()
+
+
+def level_r(ck, g, n):
+    """the same generated programs are compiled against o2o built with `syn1` and with `default-features = false, features = ["syn2"]`
+    (the real proc-macro in both configurations) and their event logs compared"""
+    from vlib import rt, rgen, rgen_enum, rgen_flat
+    cases = []
+    for i in range(n):
+        fam = i % 3
+        if fam == 0:
+            m = rgen.gen_struct_case(g, i)
+            code, di, df, _ = rgen.render_case(m, g, 3)
+        elif fam == 1:
+            m = rgen_enum.gen_enum_case(g, i)
+            code, di, df, _ = rgen_enum.render_case(m, g, 3)
+        else:
+            m = rgen_flat.gen_case(g, i)
+            code, di, df = rgen_flat.render_case(m, g, 3)
+        cases.append((i, code, di))
+    logs = {}
+    for feat in ("syn1", "syn2"):
+        cs = [rt.Case(i, code, input_text=di) for i, code, di in cases]
+        ev, rej = rt.run_sharded(f"c18r-{feat}", cs, feat, 8)
+        logs[feat] = ({(e["case"], e["conv"], e["draw"], e.get("src", "")): e["got"] for e in ev if "conv" in e}, {c.cid: rt.rustc_sig(c.rejected) for c in rej})
+    a, b = logs["syn1"], logs["syn2"]
+    byid = {i: di for i, _, di in cases}
+    for cid in set(a[1]) ^ set(b[1]):
+        ck.violation("backend|level_R|rustc_verdict_differs", dict(input=byid[cid], syn1=a[1].get(cid, "accepted"), syn2=b[1].get(cid, "accepted")))
+    for k in set(a[0]) | set(b[0]):
+        ck.count()
+        if a[0].get(k) != b[0].get(k):
+            cid = int(re.match(r"c(\d+)", k[0]).group(1))
+            if cid in a[1] or cid in b[1]:
+                continue
+            ck.violation("backend|level_R|conversion_result_differs", dict(input=byid[cid], conversion=k[1], syn1=a[0].get(k), syn2=b[0].get(k)))
+    ck.cell(["level_R", "programs", n])
+    ck.extra["level_R"] = {"programs": n, "events_compared": len(set(a[0]) | set(b[0])), "rustc_rejected": [len(a[1]), len(b[1])]}
